@@ -95,6 +95,104 @@ def _field_default(rel: str, cls: str, field: str):
     raise ValueError(f"{cls}.ConfigSchema.{field} literal default not found")
 
 
+DESTRUCTIVE = ("pop", "popitem", "clear", "update", "setdefault", "remove", "extend", "append", "insert")
+
+
+def _root_name(e: ast.AST):
+    while isinstance(e, (ast.Subscript, ast.Attribute, ast.Call)):
+        e = e.func if isinstance(e, ast.Call) else e.value
+    return e.id if isinstance(e, ast.Name) else None
+
+
+def _consumes_argument(fn: ast.FunctionDef) -> List[str]:
+    """Statements of a loader function that change the mapping it was GIVEN: a destructive method call, `del`, or an item
+    assignment whose receiver is rooted at a parameter that has not been re-bound (e.g. `config = dict(config)`) earlier in
+    the function body (statement order)."""
+    params = {a.arg for a in fn.args.args + fn.args.kwonlyargs} - {"self", "cls"}
+    out = []
+
+    def visit(stmts, live):
+        live = set(live)
+        for st in stmts:
+            for node in ast.walk(st):
+                if isinstance(node, ast.Call) and isinstance(node.func, ast.Attribute) and node.func.attr in DESTRUCTIVE \
+                        and _root_name(node.func.value) in live:
+                    out.append(ast.unparse(node))
+                if isinstance(node, ast.Delete):
+                    for t in node.targets:
+                        if _root_name(t) in live:
+                            out.append(ast.unparse(node))
+                if isinstance(node, (ast.Assign, ast.AugAssign)):
+                    for t in (node.targets if isinstance(node, ast.Assign) else [node.target]):
+                        if isinstance(t, ast.Subscript) and _root_name(t) in live:
+                            out.append(ast.unparse(node))
+            if isinstance(st, ast.Assign):
+                for t in st.targets:
+                    if isinstance(t, ast.Name):
+                        live.discard(t.id)
+        return live
+
+    visit(fn.body, params)
+    return out
+
+
+SOFTWARE_DIRS = ["simulator/system/services", "simulator/system/applications"]
+
+
+def _software_inits() -> Tuple[List[Tuple[str, str, str]], List[Tuple[str, str]]]:
+    """Every `__init__` of a software class: (class, attribute, option) for each plain application of a configured option
+    (`self.attr = self.config.opt`, optionally through one constructor call and / or under `if self.config.opt is not None`),
+    and (class, statement) for every OTHER statement that mentions `self.config` (a loop, a method call fed with configured
+    values, a test of anything but the option itself): those make the option's effect depend on what else is true when the
+    software is constructed."""
+    from harness.lib.core import SRC
+    applied, other = [], []
+    files = [SRC / "simulator/system/software.py"]
+    for d in SOFTWARE_DIRS:
+        files += sorted((SRC / d).rglob("*.py"))
+
+    def cfg_opts(e: ast.AST) -> List[str]:
+        return [n.attr for n in ast.walk(e) if isinstance(n, ast.Attribute) and isinstance(n.value, ast.Attribute)
+                and n.value.attr == "config" and isinstance(n.value.value, ast.Name) and n.value.value.id == "self"]
+
+    def plain_value(v: ast.AST) -> bool:
+        if isinstance(v, ast.Call) and len(v.args) == 1 and not v.keywords and isinstance(v.func, ast.Name):
+            v = v.args[0]
+        return isinstance(v, ast.Attribute) and len(cfg_opts(v)) == 1 and ast.unparse(v) == f"self.config.{v.attr}"
+
+    def handle(cls: str, st: ast.stmt, guarded_by=None):
+        if not cfg_opts(st):
+            return
+        if isinstance(st, ast.Assign) and len(st.targets) == 1 and isinstance(st.targets[0], ast.Attribute) \
+                and ast.unparse(st.targets[0].value) == "self" and plain_value(st.value):
+            opt = cfg_opts(st.value)[0]
+            if guarded_by in (None, opt):
+                applied.append((cls, st.targets[0].attr, opt))
+                return
+        if isinstance(st, ast.If) and not st.orelse and guarded_by is None:
+            t = ast.unparse(st.test)
+            o = cfg_opts(st.test)
+            if len(o) == 1 and t == f"self.config.{o[0]} is not None":
+                for sub in st.body:
+                    handle(cls, sub, guarded_by=o[0])
+                return
+            if not o and "operating_state" not in t and not any(isinstance(n, ast.Call) for n in ast.walk(st.test)):
+                # a test of the object's own fresh attributes (e.g. the starting health just assigned), no call
+                for sub in st.body:
+                    handle(cls, sub, guarded_by=None)
+                return
+        other.append((cls, ast.unparse(st).split("\n")[0][:160]))
+
+    for f in files:
+        tree = ast.parse(f.read_text())
+        for c in [n for n in ast.walk(tree) if isinstance(n, ast.ClassDef)]:
+            for m in c.body:
+                if isinstance(m, ast.FunctionDef) and m.name == "__init__":
+                    for st in m.body:
+                        handle(c.name, st)
+    return sorted(applied), sorted(other)
+
+
 def emit() -> str:
     sites: List[Tuple[str, str]] = []
     unknown_lists = []
@@ -202,6 +300,69 @@ def emit() -> str:
                         and "self.port_protocol_mapping.pop(key)" in un_src
                         and "self.node._application_request_manager.remove_request(software.name)" in un_src
                         and "self.node._service_request_manager.remove_request(software.name)" in un_src)
+    # the scheduler hands out a FRESH object on every call: `__call__` parses the joined text itself and returns that very value;
+    # nothing is stored on the instance or the class; the class has no field beyond the four it documents
+    sched_cls = class_def(parse("session/episode_schedule.py"), "EpisodeListScheduler")
+    rets = [n for n in ast.walk(call) if isinstance(n, ast.Return)]
+    parsed_here = [n for n in ast.walk(call) if isinstance(n, ast.Assign) and len(n.targets) == 1
+                   and isinstance(n.targets[0], ast.Name) and ast.unparse(n.value) == "yaml.safe_load(joined_yaml)"]
+    stores = [ast.unparse(n) for n in ast.walk(call) if isinstance(n, (ast.Assign, ast.AugAssign, ast.AnnAssign))
+              for t in (n.targets if isinstance(n, ast.Assign) else [n.target])
+              if _root_name(t) in ("self", "cls", "EpisodeListScheduler") and ast.unparse(t) != "self._exceeded_episode_list"]
+    calls_on_self = [ast.unparse(n) for n in ast.walk(call) if isinstance(n, ast.Call) and isinstance(n.func, ast.Attribute)
+                     and n.func.attr in DESTRUCTIVE and _root_name(n.func.value) in ("self", "cls")]
+    fresh = (len(rets) == 1 and isinstance(rets[0].value, ast.Name) and len(parsed_here) == 1
+             and parsed_here[0].targets[0].id == rets[0].value.id and not stores and not calls_on_self)
+    sched_fields = [ast.unparse(st.target) for st in sched_cls.body if isinstance(st, ast.AnnAssign)] + \
+                   [ast.unparse(t) for st in sched_cls.body if isinstance(st, ast.Assign) for t in st.targets]
+    const_call = find_method(class_def(parse("session/episode_schedule.py"), "ConstantEpisodeScheduler"), "__call__")
+    const_rets = [n for n in ast.walk(const_call) if isinstance(n, ast.Return)]
+    const_copies = len(const_rets) == 1 and ast.unparse(const_rets[0].value) == "copy.deepcopy(self.config)"
+    # loaders that consume the mapping they are given
+    consumed = []
+    for rel, cls, fn in LOADER_FUNCTIONS:
+        f = find_method(class_def(parse(rel), cls), fn)
+        consumed += [(f"{cls}.{fn}", x.replace('"', "'")) for x in _consumes_argument(f)]
+    sw_applied, sw_other = _software_inits()
+    # OfficeLANAdder: constants, guards, name / address templates and the wiring calls, in source order
+    cr = parse("simulator/network/creation.py")
+    adder = class_def(cr, "OfficeLANAdder")
+    add = find_method(adder, "add_nodes_to_net")
+    eni = [n.value.value for n in ast.walk(add) if isinstance(n, ast.Assign) and ast.unparse(n.targets[0]) == "effective_network_interface"
+           and isinstance(n.value, ast.Constant)]
+    if len(eni) != 1:
+        raise ValueError("effective_network_interface literal not found in OfficeLANAdder.add_nodes_to_net")
+    sw_ports = [v.value for n in ast.walk(add) if isinstance(n, ast.Dict) for k, v in zip(n.keys, n.values)
+                if isinstance(k, ast.Constant) and k.value == "num_ports" and isinstance(v, ast.Constant)]
+    nosr = find_function(cr, "num_of_switches_required")
+    max_if = [d.value for a, d in zip(nosr.args.args[-len(nosr.args.defaults):], nosr.args.defaults) if a.arg == "max_network_interface"]
+    nosr_src = ast.unparse(nosr)
+    if "effective_network_interface = max_network_interface - 1" not in nosr_src or \
+            "full_switches = num_nodes // effective_network_interface" not in nosr_src or \
+            "extra_pcs = num_nodes % effective_network_interface" not in nosr_src:
+        raise ValueError("num_of_switches_required: shape not recognised")
+    count_formula = ast.unparse([n for n in ast.walk(nosr) if isinstance(n, ast.Return)][-1].value)
+    schema = class_def(adder, "ConfigSchema")
+    val = find_method(schema, "check_ip_range")
+    ip_test = [ast.unparse(n.test) for n in ast.walk(val) if isinstance(n, ast.If)]
+    ip_limit = [c.value for n in ast.walk(val) if isinstance(n, ast.If) for c in ast.walk(n.test) if isinstance(c, ast.Constant)]
+    start_guard = [ast.unparse(n.test) for n in add.body if isinstance(n, ast.If) and "pcs_ip_block_start" in ast.unparse(n.test)]
+    loop = [n for n in add.body if isinstance(n, ast.For)]
+    if len(loop) != 1 or ast.unparse(loop[0].iter) != "range(1, config.num_pcs + 1)":
+        raise ValueError("OfficeLANAdder: the computer loop is not `for i in range(1, config.num_pcs + 1)`")
+    new_sw_test = [ast.unparse(n.test) for n in loop[0].body if isinstance(n, ast.If)]
+    defaults = {ast.unparse(st.target): ast.unparse(st.value) for st in schema.body if isinstance(st, ast.AnnAssign) and st.value is not None}
+    templates = [ast.unparse(n)[2:-1] for n in ast.walk(add) if isinstance(n, ast.JoinedStr)]
+    templates = [t for t in templates if not t.startswith("pcs_ip_block_start must")]
+    connects = [", ".join(ast.unparse(a) for a in n.args) + "".join(", " + k.arg + "=" + ast.unparse(k.value) for k in n.keywords)
+                for n in ast.walk(add) if isinstance(n, ast.Call) and ast.unparse(n.func) == "network.connect"]
+    # ast.walk is breadth-first: bring the calls into source order
+    order = sorted(((n.lineno, n.col_offset), i) for i, n in enumerate(
+        [n for n in ast.walk(add) if isinstance(n, ast.Call) and ast.unparse(n.func) == "network.connect"]))
+    connects = [connects[i] for _, i in order]
+    torder = sorted(((n.lineno, n.col_offset), i) for i, n in enumerate(
+        [n for n in ast.walk(add) if isinstance(n, ast.JoinedStr) and not ast.unparse(n)[2:-1].startswith("pcs_ip_block_start must")]))
+    templates = [templates[i] for _, i in torder]
     lines = ["namespace Primaite.Gen.Config",
              "/-- mapping-iteration sites in the loader functions: (function, iterated expression) -/",
              "def sites : List (String × String) := ["]
@@ -226,5 +387,27 @@ def emit() -> str:
               f"def installGuardOnlyBare : Bool := {'true' if guard_only_bare else 'false'}",
               f"def installReplacesNamesakeFirst : Bool := {'true' if replaces_first else 'false'}",
               f"def uninstallClearsClassMap : Bool := {'true' if uninstall_clears else 'false'}",
+              f"def scheduleFreshPerCall : Bool := {'true' if fresh else 'false'}",
+              "def scheduleClassFields : List String := [" + ", ".join(_lean_str(k) for k in sched_fields) + "]",
+              f"def constantSchedulerCopies : Bool := {'true' if const_copies else 'false'}",
+              "/-- statements of loader functions that change the mapping they were given -/",
+              "def loaderConsumesArgument : List (String × String) := [" + ", ".join(f"({_lean_str(a)}, {_lean_str(b)})" for a, b in consumed) + "]",
+              "/-- software constructors: (class, live attribute, option) applied unconditionally -/",
+              "def softwareInitApplies : List (String × String × String) := ["]
+    lines += ["  (" + ", ".join(_lean_str(x) for x in t) + ")" + ("," if i < len(sw_applied) - 1 else "") for i, t in enumerate(sw_applied)]
+    lines += ["]",
+              "/-- software constructors: every other statement that mentions a configured option -/",
+              "def softwareInitOtherConfigUses : List (String × String) := [" + ", ".join(f"({_lean_str(a)}, {_lean_str(b)})" for a, b in sw_other) + "]",
+              f"def officePcsPerSwitch : Nat := {eni[0]}",
+              "def officeSwitchPorts : List Nat := [" + ", ".join(str(x) for x in sw_ports) + "]",
+              f"def officeMaxInterfaceDefault : Nat := {max_if[0] if max_if else 0}",
+              f"def officeIpLimit : Nat := {ip_limit[0] if len(ip_limit) == 1 else 0}",
+              f"def officeIpRangeTest : String := {_lean_str(ip_test[0] if len(ip_test) == 1 else '?')}",
+              f"def officeStartGuard : String := {_lean_str(start_guard[0] if len(start_guard) == 1 else '?')}",
+              f"def officeNewSwitchTest : String := {_lean_str(new_sw_test[0] if len(new_sw_test) == 1 else '?')}",
+              f"def officeDefaults : String × String := ({_lean_str(defaults.get('include_router', '?'))}, {_lean_str(defaults.get('bandwidth', '?'))})",
+              "def officeTemplates : List String := [" + ", ".join(_lean_str(t) for t in templates) + "]",
+              "def officeConnects : List String := [" + ", ".join(_lean_str(t) for t in connects) + "]",
+              f"def officeSwitchCountFormula : String := {_lean_str(count_formula)}",
               "end Primaite.Gen.Config", ""]
     return "\n".join(lines)
